@@ -532,6 +532,12 @@ func convoScript(r *rand.Rand, counts [5]int, tailClass int) *peer.Script {
 	c.GnbID = hex.EncodeToString(id)
 	names := []string{"gnb-" + rdigits(r, 1+r.Intn(8)), "open5gs", "g", "STGUTG-gNB." + rdigits(r, 3), "a-rather-long-ran-node-name-" + rdigits(r, 20)}
 	c.GnbName = names[r.Intn(len(names))]
+	convoScripts++
+	if convoScripts%4 == 2 || r.Intn(8) == 0 {
+		// around and beyond the root of RANNodeName SIZE(1..150, ...): the name that reaches NG Setup is the configured one
+		n := []int{149, 150, 151, 152, 200, 255, 300}[r.Intn(7)]
+		c.GnbName = strings.Repeat("n", n-8) + rdigits(r, 8)
+	}
 	c.K = strings.ToUpper(rhexs(r, 16))
 	if r.Intn(2) == 0 {
 		c.K = strings.ToLower(c.K)
@@ -596,6 +602,8 @@ func convoScript(r *rand.Rand, counts [5]int, tailClass int) *peer.Script {
 	}
 	return s
 }
+
+var convoScripts int
 
 func convoDomain(e *emitter, prop string) {
 	var scs []*convoScenario
